@@ -219,7 +219,13 @@ class Config(CIBaseModel):
 
 
 def deep_update(base: dict[str, Any], overlay: dict[str, Any]) -> dict[str, Any]:
+    # Configuration keys are matched without regard to case when the data are
+    # validated, so an overlay entry must replace the base entry that is
+    # spelled with any other capitalization (otherwise both survive and the
+    # overlay does not necessarily win).
+    spelled = {k.lower(): k for k in base}
     for key, value in overlay.items():
+        key = spelled.setdefault(key.lower(), key)
         if key in base and isinstance(base[key], dict) and isinstance(value, dict):
             deep_update(base[key], value)
         else:
